@@ -123,6 +123,50 @@ def main_single_slack():
     return _report(fails)
 
 
+def main_algorithms():
+    """solvers other than Newton-Raphson: what is reported as converged balances (generation - consumption = branch losses)"""
+    fails = []
+    # (1) voltage dependent load with Gauss-Seidel / fast-decoupled
+    for alg in ("nr", "iwamoto_nr", "gs", "fdbx", "fdxb"):
+        for col in ("const_i_p_percent", "const_z_p_percent"):
+            net = pp.create_empty_network()
+            b = pp.create_buses(net, 3, 20.)
+            pp.create_ext_grid(net, b[0], vm_pu=1.02)
+            pp.create_line_from_parameters(net, b[0], b[1], 6., 0.2, 0.3, 10., 0.4); pp.create_line_from_parameters(net, b[1], b[2], 6., 0.2, 0.3, 10., 0.4)
+            pp.create_load(net, b[2], 4., 1., **{col: 50.}); pp.create_load(net, b[1], 1., .2)
+            try:
+                pp.runpp(net, algorithm=alg, max_iteration=1000 if alg == "gs" else 100)
+            except Exception as e:
+                print(f"note: algorithm={alg}: {type(e).__name__}")
+                continue
+            g, c = net.res_ext_grid.p_mw.sum(), net.res_load.p_mw.sum()
+            loss = net.res_line.pl_mw.sum()
+            if abs(g - c - loss) > 1e-4:
+                fails.append(f"algorithm={alg}, load with {col} = 50: converged, generation - consumption = {g - c:.6f} MW but the lines lose "
+                             f"{loss:.6f} MW")
+    # (2) backward / forward sweep with a phase shifter inside a mesh
+    for tap in (0, 3):
+        net = pp.create_empty_network()
+        b0 = pp.create_bus(net, 110.); b1 = pp.create_bus(net, 20.); b2 = pp.create_bus(net, 20.)
+        pp.create_ext_grid(net, b0, vm_pu=1.0)
+        for lvb, tap_pos in ((b1, 0), (b2, tap)):
+            pp.create_transformer_from_parameters(net, b0, lvb, sn_mva=40., vn_hv_kv=110., vn_lv_kv=20., vkr_percent=.3, vk_percent=10., pfe_kw=20.,
+                                                  i0_percent=.1, tap_side="hv", tap_neutral=0, tap_min=-9, tap_max=9, tap_step_percent=0.,
+                                                  tap_step_degree=1., tap_pos=tap_pos, tap_changer_type="Ideal")
+        pp.create_line_from_parameters(net, b1, b2, 5., 0.2, 0.3, 10., 0.4)
+        pp.create_load(net, b2, 5., 1.); pp.create_load(net, b1, 3., 1.)
+        try:
+            pp.runpp(net, algorithm="bfsw", calculate_voltage_angles=True, tolerance_mva=1e-8, max_iteration=1000)
+        except pp.LoadflowNotConverged:
+            continue
+        g, c = net.res_ext_grid.p_mw.sum(), net.res_load.p_mw.sum()
+        loss = net.res_line.pl_mw.sum() + net.res_trafo.pl_mw.sum()
+        if abs(g - c - loss) > 1e-5:
+            fails.append(f"algorithm=bfsw, two transformers and a line in a mesh, ideal phase shifter at {tap} degree: converged, generation - "
+                         f"consumption = {g - c:.6f} MW but the branches lose {loss:.6f} MW")
+    return _report(fails)
+
+
 def _report(fails):
     for f in fails:
         print("REPRODUCED:", f)
